@@ -30,7 +30,7 @@ def cases(tier, seed):
     rng = random.Random('C14|%d' % seed)
     T = tier == 'thorough'
     cs = []
-    nstruct = 160 if not T else 700
+    nstruct = 400 if not T else 3000
     k = 2 if not T else 5
     for i in range(nstruct):
         routine = ['dmrg_cross', 'interp_uni', 'interp_multi', 'interp_coupled'][i % 4]
